@@ -2,6 +2,7 @@ mod batch;
 mod check;
 mod clock;
 mod crash;
+mod dirmedia;
 mod disk;
 mod exec;
 mod exec_dirs;
@@ -13,6 +14,7 @@ mod fscheck;
 mod gen;
 mod mkfs;
 mod monitors;
+mod mount;
 mod names;
 mod ops;
 mod rng;
@@ -61,16 +63,26 @@ fn engine_of(prop: &str) -> &'static str {
         "fs-crash"
     } else if prop == "C11" {
         "fs-fault"
+    } else if prop == "C17" {
+        "dir-media"
+    } else if prop == "C15" {
+        "mount"
     } else {
         "unknown"
     }
 }
 
 fn run_case(prop: &str, seed: u64) -> CaseOutcome {
+    if prop == "C06" && seed & 1 == 1 {
+        // half of the C06 cases are generated / corrupted directory media rather than histories
+        return dirmedia::dir_case("C06", seed, false);
+    }
     match engine_of(prop) {
         "fs-history" => fscheck::fs_case(prop, seed),
         "fs-crash" => crash::crash_case(prop_static(prop).unwrap(), seed),
         "fs-fault" => faults::fault_case(seed, env_u64("VERIF_FAULT_POINTS", 400) as usize),
+        "dir-media" => dirmedia::dir_case(prop_static(prop).unwrap(), seed, std::env::var("VERIF_TIER").map_or(false, |t| t == "thorough")),
+        "mount" => mount::mount_case(seed),
         _ => panic!("no engine for {}", prop),
     }
 }
@@ -82,6 +94,9 @@ fn replay_case(prop: &str, case: &Value) -> Result<CaseOutcome, String> {
         let s = rng::mix(seed, rng::tag_of(prop), idx);
         return Ok(run_case(prop, s));
     }
+    if case.get("slots").is_some() {
+        return dirmedia::dir_replay(prop_static(prop).unwrap(), case);
+    }
     match engine_of(prop) {
         "fs-history" => fscheck::fs_replay(prop, case),
         "fs-crash" => {
@@ -92,12 +107,15 @@ fn replay_case(prop: &str, case: &Value) -> Result<CaseOutcome, String> {
             let sc: ops::Scenario = serde_json::from_value(case.clone()).map_err(|e| format!("bad scenario: {}", e))?;
             Ok(faults::fault_replay(&sc))
         }
+        "dir-media" => dirmedia::dir_replay(prop_static(prop).unwrap(), case),
+        "mount" => mount::mount_replay(case),
         _ => Err(format!("no engine for {}", prop)),
     }
 }
 
 fn minimise_case(prop: &str, case: &Value, sig: &str) -> Value {
-    match engine_of(prop) {
+    let eng = if case.get("slots").is_some() { "dir-media" } else { engine_of(prop) };
+    match eng {
         "fs-history" => {
             let sc: ops::Scenario = match serde_json::from_value(case.clone()) {
                 Ok(s) => s,
@@ -106,6 +124,11 @@ fn minimise_case(prop: &str, case: &Value, sig: &str) -> Value {
             let m = fscheck::fs_minimise(prop, &sc, sig, 600);
             serde_json::to_value(&m).unwrap()
         }
+        "mount" => mount::mount_minimise(case, sig),
+        "dir-media" => match serde_json::from_value::<dirmedia::DirCase>(case.clone()) {
+            Ok(c) => serde_json::to_value(&dirmedia::dir_minimise(prop_static(prop).unwrap(), &c, sig)).unwrap(),
+            Err(_) => case.clone(),
+        },
         "fs-crash" => {
             let sc: ops::Scenario = match serde_json::from_value(case.clone()) {
                 Ok(s) => s,
@@ -128,6 +151,18 @@ fn meta(prop: &str) -> (&'static str, String, Value, Vec<String>) {
             fscheck::fs_components(),
             vec!["exhaustive over the crash points of each explored history (every write-log prefix); histories themselves are sampled".to_string()],
         ),
+        "dir-media" => (
+            "exploration",
+            "one case = one generated directory (FAT16 fixed root of 16..512 entries, FAT32 root at any cluster, or a sub-directory; chains of 1..7 clusters, optionally fragmented) built slot by slot from live, deleted, volume-label, end-marker and long-name slots: fragment runs of 1..20 slots over seven code-unit classes (ASCII, Latin-1, BMP, 0x0000, 0xFFFF, high and low surrogates, class pairs forced at fragment boundaries) in the variants correct / wrong checksum / gap / duplicate / swap / missing start flag / bad ordinal / cut by deleted, short or label slot / mixed checksums / orphan / same-checksum neighbour, plus stored-byte flips; listed through iterate_dir_lfn with buffer sizes 0,1,2,3,4,780 and random ones, and through iterate_dir/find/open_dir; every answer compared with the reference long-name state machine and lossy UTF-16 decoding of the independent reader; non-trivial = the directory has at least one live entry; distinct = hash of the live slots and listing lengths".to_string(),
+            serde_json::json!({"real": ["VolumeManager::iterate_dir_lfn / iterate_dir / find_directory_entry / open_dir", "FatVolume directory walks", "LfnBuffer", "OnDiskDirEntry", "BlockCache"], "stub": ["block device (read-only image)", "clock"], "trusted": ["mkfs.rs formatter", "fatspec.rs reader incl. reference LFN state machine"]}),
+            vec!["directory media are generated, not enumerated; slots whose attribute byte the library and the specification classify differently (low nibble 0xF but not 0x0F) are skipped and counted".to_string()],
+        ),
+        "mount" => (
+            "exploration",
+            "one case = one device built by the independent formatter (all combinations of 1..128 blocks/cluster, reserved blocks, 1-2 FATs, root entry counts, 16/32-bit total fields, partition slots 0-3 and offsets, cluster counts at and around 4085 / 65525, FAT32 root anywhere, FSInfo position) either mounted as is - the library must find exactly the formatter's tree through a fresh mount (names, sizes, attributes, contents), a FAT12-sized volume must be refused - or with stored-byte corruption of its MBR / boot sector / FSInfo sector (each numeric field set to 0, 1, 2, max, max-1, high bit, random; 1..64 random bit flips; whole random sectors with and without signatures) and then mounted under catch_unwind with overflow checks on: Ok or Err, never a panic; non-trivial = every case; distinct = hash of geometry, mutation list and outcome".to_string(),
+            serde_json::json!({"real": ["VolumeManager::open_volume/open_raw_volume", "fat::parse_volume", "Bpb", "InfoSector", "directory walk and file reads of the fresh mount"], "stub": ["block device (read-only image)", "clock"], "trusted": ["mkfs.rs formatter", "fatspec.rs reader"]}),
+            vec!["nothing is demanded of later calls on a volume mounted from corrupted sectors (as the statement says)".to_string()],
+        ),
         "fs-fault" => (
             "fault_enumeration",
             "one case = one simulated history (small volumes, lookups/listings/reads as well as create/write/delete/mkdir) executed fault-free to count its N block-device calls, then re-executed from the start once per call index i with exactly call i failing (read: buffer scribbled + Err; write: lost + Err, and applied + Err), plus 'device dead from call i until the API call returns' windows; after the failing call: it must have returned Err without panic/hang, a read-only call is retried and must be correct, every open handle is used and closed (and must be released), and the medium is compared with the model except for the object the failed call operated on; evaluations = injected fault executions; non-trivial = at least one fault fired inside an API call; distinct = hash over the event logs of all fault executions of the history".to_string(),
@@ -142,6 +177,8 @@ fn runs_for(prop: &str, tier: &str) -> u64 {
     let quick = match prop {
         "C09" | "C10" => 60_000,
         "C11" => 8_000,
+        "C17" => 40_000,
+        "C15" => 60_000,
         "C01" | "C06" | "C07" | "C08" => 40_000,
         "C02" => 30_000,
         _ => 25_000,
